@@ -1,5 +1,6 @@
 SPECIFICATION GenSpec
 CONSTANTS Malformed = "ascoded"
+ ApiErr = "ascoded"
  Variant = "none"
  AltForks = {"phase0", "altair", "bellatrix", "capella", "deneb", "electra", "fulu"}
 INVARIANTS Emit
